@@ -23,13 +23,16 @@ def main():
     L = 2 if chk.quick else 3
     chk.assumptions += ["representative-character classes (see C03)", "StringIO.readline splits at '\\n' only"]
     chk.stubs += ["tokenize._compile -> symbolic regex matcher", "io.StringIO(proxy) -> line splitter"]
-    collect_functions(chk, lambda: list(repo().real.tokenize.generate_tokens("if a:\n  x = f'{b}' + '''c\nd'''\n")))
+    collect_functions(chk, lambda: harness.oracles.run_tokens(repo().real, "if a:\n  x = f'{b}' + '''c\nd'''\n"))
     for l in range(1, L + 1):
         for nl in (False, True):
             chk.run(f"A-full tokens L={l}{'+nl' if nl else ''}",
                     harness.A_harness(lambda ex, l=l, nl=nl: chars.sym_text(ex, "c", l) + ("\n" if nl else ""), do_tokens=True, do_parse=False,
                                       sym_tiling=True, path_oracles=("c08",)),
                     f"all strings over R of length {l}{' followed by a newline' if nl else ''}", vacuity=("ok",))
+    from checks import pycommon
+    pycommon.indent_skeleton(chk, ("c08",), 4 if chk.quick else 5, pycommon.CORE_OPTS, wall=120 if chk.quick else 1200, tokens_only=True)
+    pycommon.indent_skeleton(chk, ("c08",), 2 if chk.quick else 3, pycommon.RICH_OPTS, wall=120 if chk.quick else 1200, tokens_only=True, label="rich")
     py, xs, lits = seeds.all_seeds()
     texts = LAYOUT_SEEDS + xs + py
     if chk.quick:
